@@ -133,7 +133,9 @@ def r2(fx):
     mv, lv, md = micro_versions(fx), levels(fx), modes(fx)
     nv = make_callable(fx.forest, 'encoder', 'normalize_version', it)
     dom = list(range(-5, 45)) + [str(i) for i in range(-2, 43)] + ['M1', 'M2', 'M3', 'M4', 'm1', 'm2', 'm3', 'm4', 'M0', 'M5', 'm5', 'x', '',
-                                                                  'M', '1.5', ' 7', '40 ', None, 'M10', 'mm1']
+                                                                  'M', '1.5', ' 7', '40 ', None, 'M10', 'mm1',
+                                                                  # what float() / int() accept beyond plain digits
+                                                                  'inf', '-inf', 'Infinity', 'nan', 'NaN', '1e999', '1e1', '7.0', '0x7', '1_0', '+7', '७']
 
     def exp_v(x):
         if x is None:
@@ -145,7 +147,17 @@ def r2(fx):
         except ValueError:
             return 'ValueError'
         return i if 1 <= i <= 40 else 'ValueError'
-    bad = _sweep(nv, dom, exp_v)
+    ref_answers = dict((x, exp_v(x)) for x in dom[:len(dom) - 12])
+    bad = _sweep(nv, dom[:len(dom) - 12], exp_v)
+    # the odd spellings: whatever is accepted must be a version 1..40 (or refused with ValueError) - never another exception
+    for x in dom[len(dom) - 12:]:
+        try:
+            got = nv(x)
+            if not (isinstance(got, int) and not isinstance(got, bool) and 1 <= got <= 40):
+                bad.append((x, got, 'a version or ValueError'))
+        except PyRaise as e:
+            if e.name not in ('ValueError',) and not e.name.endswith('VersionError'):
+                bad.append((x, f'raises {e.name}', 'a version or ValueError'))
     yield ob(f'normalize_version over {len(dom)} values', not bad, fx.fn('encoder', 'normalize_version'), got=bad[:4], want=[])
     ne = make_callable(fx.forest, 'encoder', 'normalize_errorlevel', it)
     dom = ['l', 'm', 'q', 'h', 'L', 'M', 'Q', 'H', 'x', '', 'LL', 'low', '-', 0, 1, 2, 3, 4, -1, 7] + [None]
@@ -217,7 +229,11 @@ def r3(fx):
     bad = []
 
     class Stream:
-        _model = ()
+        # a writable object without a name (io.BytesIO, say)
+        _model = ('write',)
+
+        def write(self, data):
+            calls.append(('stream.write', len(data)))
     for k in kinds:
         for spell in (k, k.upper(), k.title()):
             for how in ('kind', 'path'):
@@ -954,3 +970,31 @@ def r13(fx):
     for o in p12.r3(fx):
         if 'same configuration for every letter case' in o.key or o.key.startswith('flags reach'):
             yield o
+
+
+@rule('C14', 'R14', 60, 'public signatures only grow at the end: every positional parameter of the reference tree is still at its position (an existing positional call keeps its meaning), every parameter is still accepted')
+def r14(fx):
+    from .. import canon
+    inv = canon.inventory()
+    for m in ('__init__', 'encoder', 'utils', 'writers', 'helpers'):
+        ref_pos = inv.get(m, {}).get('positional', {})
+        ref_all = inv.get(m, {}).get('signature', {})
+        for q in sorted(ref_pos):
+            parts = q.split('.')
+            if any(p_.startswith('_') and not (p_.startswith('__') and p_.endswith('__')) for p_ in parts) or len(parts) > 2:
+                continue
+            if len(parts) == 2 and parts[0][:1].islower():
+                continue        # nested function
+            if not fx.forest.has_func(m, q):
+                continue        # a public function that disappeared is another matter (the routes of C12 / the factories of C16 decide)
+            fn = fx.fn(m, q)
+            if not isinstance(fn, ast.FunctionDef):
+                continue
+            cur_pos = [a.arg for a in fn.args.posonlyargs + fn.args.args]
+            cur_all = set(cur_pos) | {a.arg for a in fn.args.kwonlyargs}
+            want = ref_pos[q]
+            moved = [p_ for i, p_ in enumerate(want) if i >= len(cur_pos) or cur_pos[i] != p_]
+            gone = [p_ for p_ in ref_all.get(q, ()) if p_ not in cur_all and fn.args.kwarg is None]
+            ok = not moved and not gone
+            yield Ob(f'{m}.{q}: positional parameters of the reference tree keep their positions', ok, f'{m}.{q}', fn.lineno,
+                     f'{cur_pos}' + (f'; no longer accepted: {gone}' if gone else ''), f'begins with {want}', True)
